@@ -61,6 +61,7 @@ func normalize(network Network, proto Protocol, req, resp *dns.Msg, maxMsgSize u
 			},
 			Option: filterUnsupportedOptions(reqOpt.Option),
 		}
+		respOpt.SetUDPSize(ednsUDPSize)
 		resp.Extra = append(resp.Extra, respOpt)
 	}
 
